@@ -4,8 +4,9 @@
 cd "$(dirname "$0")/.."
 WT=$(mktemp -d /tmp/benign.XXXXXX); rmdir $WT
 git -C /repo worktree add -q --detach $WT HEAD || exit 9
-for f in tools/benign_refactors.diff tools/benign_refactors2.diff tools/benign_refactors3.diff; do git -C $WT apply $PWD/$f || { echo "cannot apply $f"; exit 9; }; done
+for f in tools/benign_refactors.diff tools/benign_refactors2.diff tools/benign_refactors3.diff; do git -C $WT apply $PWD/$f || { echo "cannot apply $f"; git -C /repo worktree remove --force $WT; exit 9; }; done
 for p in C01 C02 C03 C04 C05 C06 C07 C08 C09 C10 C11 C12 C13 C14 C15 C16 C17 C18 C19 C20; do
-  PYVC_JOBS=${PYVC_JOBS:-8} PYVC_REPO=$WT PYVC_EVIDENCE_DIR=$WT/.evidence python3-vt -m pyvc.check $p --tier quick > $WT/.out 2>&1; echo "$p exit=$? $(tail -1 $WT/.out | cut -c1-160)"
+  (PYVC_JOBS=${PYVC_JOBS:-4} PYVC_REPO=$WT PYVC_EVIDENCE_DIR=$WT/.evidence/$p python3-vt -m pyvc.check $p --tier quick > $WT/.out.$p 2>&1; echo "$p exit=$? $(tail -1 $WT/.out.$p | cut -c1-160)") &
 done
+wait
 git -C /repo worktree remove --force $WT
